@@ -281,7 +281,7 @@ def rules(ctx):
     if ctx.tier == "thorough":
         from . import controls
         extra = [controls.control_rule([("R05.6", r05_6, ["tpl_first_quasi"])])]
-    return extra + [__import__('vjsx.rules.c10', fromlist=['x']).field_ratchet('the model directive chosen for one element must not depend on an earlier one'), only(c04.r04_5, lambda k: 'takes its modifiers' in k, 'v-model modifiers written as `_suffix`'), r05_1, r05_2, r05_3, r05_4, r05_5, r05_6,
+    return extra + [__import__('vjsx.rules.c10', fromlist=['x']).field_ratchet('the model directive chosen for one element must not depend on an earlier one'), only(c04.r04_5, lambda k: 'takes its modifiers' in k, 'v-model modifiers written as `_suffix`'), r05_1, r05_2, r05_3, r05_4, r05_5, r05_6, c01.r01_8,
             only(c01.r01_5, lambda k: "de-duplicated" in k, "a user-written `onUpdate:x` listener beside v-model is merged with the generated one, not replaced"),
             only(c01.r01_1, lambda k: k.startswith(("component predicate", "the Fragment name")), "component vs element host decides prop-style vs directive-style v-model"),
             only(c11.r11_3, lambda k: "visit_mut_jsx_opening_element" in k or "decouple" in k or k.startswith("scan"), "v-models expansion keeps order and position")]
